@@ -295,6 +295,32 @@ PROPS = {
                                      "git itself (commits, push rejection of non-fast-forward updates)"],
         "assumptions": ["handles of one case are used one call at a time (concurrent use of the object store is C09); cleanup runs are excluded here (C10); crashes are C11"],
     },
+    "C11": {
+        "module": "TcVerif.Props.C11",
+        "theorems": ["Tc.C11_interrupted_add_all_or_nothing", "Tc.C11_interrupted_add_respects_parent", "Tc.C11_event_chainOk",
+                     "Tc.C11_chain_protocol_survives", "Tc.C11_accepted_stays", "Tc.C11_accept_iff_after",
+                     "Tc.C11_replica_interrupted_absent", "Tc.C11_replica_recovers"],
+        "leanchecker_modules": [],
+        "runs": [
+            {"family": "backend", "flags": ["--crash"], "quick": {"cases": 48, "max_len": 20}, "thorough": {"cases": 480, "max_len": 40}},
+        ],
+        "judge_preds": ["linear", "child", "snapshot", "noerr", "atomic", "recover"],
+        "nontrivial": lambda imp, ops: any(l.startswith("interrupted") for l in imp) or any(l == "sync err" for l in imp),
+        "rule": "cases rotate over local SQLite, object store, git local-only and git with a shared remote (1-3 handles / clones), and alternate between two shapes. "
+                "Server level: a random call sequence as in C08 in which about half of the add_version / add_snapshot calls are interrupted — local and git: an error "
+                "injected at a named failpoint between the internal steps (between insert and latest-update, before commit; after the version file, after the meta file, "
+                "after the git commit i.e. before the push); object store: the m-th object-store request of the call fails before or after being carried out — after "
+                "which the handle is dropped and re-opened (process stop) and EVERY handle is asked for the child of the parent: all must agree, and show either the "
+                "submitted bytes under a new id (accepted) or nothing (absent); the model follows the recorded outcome, and all later answers must match ChainSrv. "
+                "Replica level: two real replicas create tasks and synchronize through the backend while their add_version is interrupted the same way (failed sync = "
+                "process stop of that handle); finally everybody synchronizes twice and every replica must hold every task ever created, nothing else, all equal. "
+                "non-trivial = at least one interrupted request or failed sync in the case; distinct by SHA-1",
+        "trusted_base": TB_COMMON + ["a failpoint error followed by dropping the handle stands for a process stop at that point: SQLite's own crash atomicity (journal) and git's "
+                                     "object/ref atomicity under a real kill are trusted, not exercised",
+                                     "the in-memory object store hook stands for a real object store (request-level atomicity)"],
+        "assumptions": ["the HTTP backend is not part of this property's quantifier (the server side is external); faults at single statements inside one SQLite transaction are "
+                        "indistinguishable from a fault before the transaction (rollback, C06)"],
+    },
     "C13": {
         "module": "TcVerif.Props.C13",
         "theorems": ["Tc.Crypto.unseal_seal", "Tc.Crypto.seal_layout", "Tc.Crypto.aad_layout", "Tc.Crypto.unseal_rejects_short",
